@@ -172,6 +172,71 @@ func registeredRefsRolledBack(r *core.Run) {
 			return true
 		})
 	})
+	// (c) the roll-back is total: in its loop over the journal the delete is skipped only when the map no
+	// longer holds that very ref — never by a property of the ref (linked or not, kind, name)
+	if rollback != nil {
+		if rfd := core.DeclOf(pk, rollback); rfd != nil && rfd.Body != nil {
+			ast.Inspect(rfd.Body, func(n ast.Node) bool {
+				rs, ok := n.(*ast.RangeStmt)
+				if !ok {
+					return true
+				}
+				sel, ok := core.Unparen(rs.X).(*ast.SelectorExpr)
+				if !ok || sel.Sel.Name != rollField {
+					return true
+				}
+				val, _ := rs.Value.(*ast.Ident)
+				o := r.Add("R-ERR/rollback", "j5schema."+core.FuncName(rfd)+" | every journalled ref is removed", rs.Pos(), "totality of the roll-back")
+				var bad ast.Expr
+				var check func(list []ast.Stmt)
+				check = func(list []ast.Stmt) {
+					for _, st := range list {
+						is, ok := st.(*ast.IfStmt)
+						if !ok {
+							continue
+						}
+						// identity test: <…>.Schemas[<…>] == ref
+						identity := false
+						ast.Inspect(is.Cond, func(m ast.Node) bool {
+							if b, ok := m.(*ast.BinaryExpr); ok && (b.Op == token.EQL || b.Op == token.NEQ) {
+								for _, pair := range [][2]ast.Expr{{b.X, b.Y}, {b.Y, b.X}} {
+									if _, isIx := core.Unparen(pair[0]).(*ast.IndexExpr); isIx {
+										if id, ok := core.Unparen(pair[1]).(*ast.Ident); ok && val != nil && info.ObjectOf(id) == info.ObjectOf(val) {
+											identity = true
+										}
+									}
+								}
+							}
+							return true
+						})
+						if identity {
+							check(is.Body.List)
+							continue
+						}
+						// any other condition that mentions the ref and skips (continue / no delete inside)
+						mentions := false
+						ast.Inspect(is.Cond, func(m ast.Node) bool {
+							if id, ok := m.(*ast.Ident); ok && val != nil && info.ObjectOf(id) == info.ObjectOf(val) {
+								mentions = true
+							}
+							return true
+						})
+						if mentions {
+							bad = is.Cond
+						}
+					}
+				}
+				check(rs.Body.List)
+				if bad != nil {
+					o.Pos = r.P.Rel(bad.Pos())
+					o.Fail("the roll-back skips a journalled ref under %s: a ref that was linked while an ancestor was still being built points at that ancestor's placeholder, which is removed — the kept schema then hands out a nil schema without an error", core.NormExpr(info, bad))
+				} else {
+					o.Auto("only the identity test `Schemas[k] == ref` guards the delete")
+				}
+				return true
+			})
+		}
+	}
 	// (b) error returns of Schema pass the roll-back
 	if sfd, _ := r.P.FuncDecl(schemaRel, "SchemaCache.Schema"); sfd == nil {
 		r.Fatal("anchor: j5schema.SchemaCache.Schema not found")
